@@ -182,11 +182,12 @@ func (fc *FuncCtx) parseModifies1(env *Env, ent0 string) []modLoc {
 			if !ok {
 				specFail("modifies %s: not a field of a pointer", ent)
 			}
-			i, ok := fc.S.FieldByName(stt, x.Name)
+			path, _, ok := fc.S.PromotedPath(stt, x.Name)
 			if !ok {
 				specFail("modifies %s: no such field", ent)
 			}
-			out = append(out, modLoc{comp: fc.heapComp(stt, i), kind: "field", ref: v.T})
+			// a promoted field is part of the embedded struct value: the whole embedded field is the location
+			out = append(out, modLoc{comp: fc.heapComp(stt, path[0]), kind: "field", ref: v.T})
 		case EIndex:
 			v := fc.eval(env, x.X)
 			u, ok := v.Ty.Underlying().(*types.Slice)
@@ -839,6 +840,11 @@ func (fc *FuncCtx) execInvoke(x *ssa.Call, st *State, reach string) {
 		key = n.Obj().Pkg().Path() + "." + n.Obj().Name() + "." + m.Name()
 	}
 	ct := fc.V.CS.Funcs[key]
+	if ct == nil {
+		if n, ok := it.(*types.Named); ok {
+			ct = fc.V.CS.Funcs["runtime."+n.Obj().Name()+"."+m.Name()]
+		}
+	}
 	site := fc.siteKey(m.Name())
 	var ss *SiteSpec
 	if fc.C != nil {
